@@ -290,6 +290,49 @@ def run(ctx: Context) -> None:
         ok_ext = undecided is None and all(got[e_] == (('return', want_ext[e_]) if e_ in want_ext else ('raise', 'CommandException')) for e_ in sample)
         ctx.check('R20.4', ok_ext, "each extension is guessed as its own format, from the last suffix of the output path, and every other extension is refused", gf, gf.node,
                   construct=f"extension -> outcome {dict((k, v[1] if v[0] == 'return' else v[0]) for k, v in got.items())}"[:300])
+        # the sample decides for every extension only if the suffix is compared as a whole: equality with or membership in literal strings, a key of
+        # a literal table.  `endswith('json')`, a prefix, a lower-cased copy or a pattern would accept extensions no sample mentions ('.topojson').
+        gflow = ctx.flow(gf)
+        parents_ = {}
+        for n_ in ast.walk(gf.node):
+            for ch_ in ast.iter_child_nodes(n_):
+                parents_[id(ch_)] = n_
+
+        def is_suffix(e_):
+            r_ = gflow.resolve(e_) if isinstance(e_, ast.Name) else e_
+            return isinstance(r_, ast.Attribute) and r_.attr == 'suffix'
+
+        def literal_strings_(e_):
+            r_ = gflow.resolve(e_) if isinstance(e_, ast.Name) else e_
+            if isinstance(r_, ast.Constant) and isinstance(r_.value, str):
+                return True
+            if isinstance(r_, (ast.Set, ast.Tuple, ast.List)):
+                return all(isinstance(x, ast.Constant) and isinstance(x.value, str) for x in r_.elts)
+            if isinstance(r_, ast.Dict):
+                return all(isinstance(x, ast.Constant) and isinstance(x.value, str) for x in r_.keys)
+            return False
+        odd = []
+        for n_ in ast.walk(gf.node):
+            if not (isinstance(n_, (ast.Name, ast.Attribute)) and isinstance(getattr(n_, 'ctx', None), ast.Load) and is_suffix(n_)):
+                continue
+            par_ = parents_.get(id(n_))
+            if isinstance(par_, ast.Attribute) and par_.value is n_ and is_suffix(par_):
+                continue
+            if isinstance(par_, ast.Assign):
+                continue        # extension = output_path.suffix
+            if isinstance(par_, ast.Compare) and par_.left is n_ and len(par_.ops) == 1 and isinstance(par_.ops[0], (ast.Eq, ast.NotEq, ast.In, ast.NotIn)) and literal_strings_(par_.comparators[0]):
+                continue
+            if isinstance(par_, ast.Subscript) and par_.slice is n_ and literal_strings_(par_.value):
+                continue
+            if isinstance(par_, ast.Call) and n_ in par_.args and isinstance(par_.func, ast.Attribute) and par_.func.attr == 'get' and literal_strings_(par_.func.value):
+                continue
+            if isinstance(par_, ast.FormattedValue):
+                continue        # the message of the refusal
+            if isinstance(par_, ast.match_case) or isinstance(par_, ast.Match):
+                continue
+            odd.append(norm_text(par_) if par_ is not None else norm_text(n_))
+        ctx.check('R20.4', not odd, "the suffix is compared as a whole (equal to / one of literal extensions, or a key of a literal table): no prefix, ending, case folding or pattern decides the format",
+                  gf, gf.node, construct=f"other uses of the suffix: {odd[:3] or 'none'}")
         cmds_pkg = [m for name, m in p.modules.items() if name.startswith(CMDS + '.') and not name.rsplit('.', 1)[-1].startswith('_')]
         ctx.require(len(cmds_pkg) >= 4, "fewer than four command modules found")
         for m in sorted(cmds_pkg, key=lambda m: m.name):
